@@ -601,6 +601,26 @@ impl<'a> Ed<'a> {
             auto_pred_headers: 0,
         }
     }
+    /// E22 (cont.): the body of an inlined closure is no longer a closure body, so a `return` in it would
+    /// leave the enclosing function.  The early-return form `if c { ..; return E; } rest` at the top level of
+    /// the body is rewritten to the equal `if c { ..; E } else { rest }`.
+    fn early_returns_of_inlined_closure(&mut self, body: &syn::Expr) {
+        let syn::Expr::Block(b) = body else { return };
+        let be = b.block.span().byte_range().end;
+        for st in &b.block.stmts {
+            let syn::Stmt::Expr(syn::Expr::If(i), _) = st else { continue };
+            if i.else_branch.is_some() { continue }
+            let Some(syn::Stmt::Expr(syn::Expr::Return(r), semi)) = i.then_branch.stmts.last() else { continue };
+            let Some(val) = &r.expr else { continue };
+            let rs = r.span().byte_range();
+            let vs = val.span().byte_range();
+            self.push(rs.start, vs.start, "", "E22-early-return-of-inlined-closure", true);
+            if let Some(semi) = semi { let ss = semi.span().byte_range(); self.push(ss.start, ss.end, "", "E22-early-return-of-inlined-closure", true); }
+            let ie = i.span().byte_range().end;
+            self.push(ie, ie, " else {", "E22-early-return-of-inlined-closure", true);
+            self.push(be - 1, be - 1, "}", "E22-early-return-of-inlined-closure", true);
+        }
+    }
     fn push(&mut self, start: usize, end: usize, text: impl Into<String>, kind: &'static str, swallow: bool) {
         self.edits.push(Edit { start, end, text: text.into(), kind, swallow });
     }
@@ -992,7 +1012,26 @@ impl<'a, 'ast> Visit<'ast> for Ed<'a> {
                         self.push(rs.end, bs.start, " { Some(vx_some) => Some(vx_some), None => ", "E22-option-combinator-inlined", true);
                         self.push(bs.end, es.end, " })", "E22-option-combinator-inlined", true);
                     }
+                    self.early_returns_of_inlined_closure(&c.body);
                     self.visit_expr(&e.receiver);
+                    self.visit_expr(&c.body);
+                    return;
+                }
+            }
+        }
+        // E22 (cont.): `opt.unwrap_or_else(|| body)` -> `match opt { Some(v) => v, None => body }`
+        if self.dir.inline_option && e.args.len() == 1 && e.method == "unwrap_or_else" {
+            if let syn::Expr::Closure(c) = &e.args[0] {
+                if c.inputs.is_empty() {
+                    let rs = e.receiver.span().byte_range();
+                    let bs = c.body.span().byte_range();
+                    let es = e.span().byte_range();
+                    self.push(rs.start, rs.start, "(match ", "E22-option-combinator-inlined", false);
+                    self.push(rs.end, bs.start, " { Some(vx_some) => vx_some, None => ", "E22-option-combinator-inlined", true);
+                    self.push(bs.end, es.end, " })", "E22-option-combinator-inlined", true);
+                    self.early_returns_of_inlined_closure(&c.body);
+                    self.visit_expr(&e.receiver);
+                    self.closure_idx += 1; // the closure literal disappears but keeps its ordinal (source order)
                     self.visit_expr(&c.body);
                     return;
                 }
@@ -1017,6 +1056,25 @@ impl<'a, 'ast> Visit<'ast> for Ed<'a> {
                     self.visit_expr(&e.receiver);
                     self.visit_expr(&cd.body);
                     self.visit_expr(&cf.body);
+                    return;
+                }
+            }
+        }
+        // E22 (cont.): `opt.map_or_else(|| a, PATH)` (a function or constructor by name) -> `match opt { None => a, Some(v) => PATH(v) }`
+        if self.dir.inline_option && e.method == "map_or_else" && e.args.len() == 2 {
+            if let (syn::Expr::Closure(cd), syn::Expr::Path(pf)) = (&e.args[0], &e.args[1]) {
+                if cd.inputs.is_empty() {
+                    let rs = e.receiver.span().byte_range();
+                    let es = e.span().byte_range();
+                    let ds = cd.body.span().byte_range();
+                    let fs = pf.span().byte_range();
+                    self.push(rs.start, rs.start, "(match ", "E22-option-combinator-inlined", false);
+                    self.push(rs.end, ds.start, " { None => ", "E22-option-combinator-inlined", true);
+                    self.push(ds.end, fs.start, ", Some(vx_some) => ", "E22-option-combinator-inlined", true);
+                    self.push(fs.end, es.end, "(vx_some) })", "E22-option-combinator-inlined", true);
+                    self.visit_expr(&e.receiver);
+                    self.closure_idx += 1;
+                    self.visit_expr(&cd.body);
                     return;
                 }
             }
@@ -2808,6 +2866,15 @@ fn caught_guarded(repl: &str) -> String {
 fn anchor_match(text: &str, anchor: &str) -> bool {
     let anchor = anchor.strip_prefix('>').unwrap_or(anchor);
     let anchor = anchor.strip_prefix('<').unwrap_or(anchor);
+    // `HEAD … TAIL`: the text starts with HEAD and ends with TAIL (the shape of a whole statement, e.g.
+    // `let x = async {…};` which `let x = async { .. }.await;` does not have)
+    if let Some((h, t)) = anchor.split_once('…') {
+        // (white space is not significant in this form: a statement spread over several lines can be spelled)
+        let nows = |x: &str| x.chars().filter(|c| !c.is_whitespace()).collect::<String>();
+        let (h, t, text) = (nows(h), nows(t), nows(text));
+        let head = match h.strip_prefix('~') { Some(c) => text.contains(c), None => text.starts_with(h.as_str()) };
+        return text.len() >= h.len() + t.len() && head && text.ends_with(t.as_str());
+    }
     match anchor.strip_prefix('~') {
         Some(a) => text.contains(a.trim()),
         None => text.starts_with(anchor),
